@@ -860,6 +860,8 @@ class EdgeQLSourceGenerator(codegen.SourceGenerator):
         self.write('<')
         if node.cardinality_mod is qlast.CardinalityModifier.Optional:
             self.write('optional ')
+        elif node.cardinality_mod is qlast.CardinalityModifier.Required:
+            self.write('required ')
         self.visit(node.type)
         self.write('>')
         self.visit(node.expr)
